@@ -1547,7 +1547,7 @@ esl_vec_FValidate(const float *vec, int64_t n, float tol, char *errbuf)
   if (n == 0) return eslOK;
 
   for (x = 0; x < n; x++) {
-    if (vec[x] < 0.0 || vec[x] > 1.0)
+    if (! isfinite(vec[x]) || vec[x] < 0.0 || vec[x] > 1.0)
       ESL_XFAIL(eslFAIL, errbuf, "value %d is not a probability between 0..1", x);
     sum += vec[x];
   }
